@@ -189,4 +189,152 @@ theorem Led_addPending (e : Env) (s : St) (C P : List Nat) (i : Nat) (hl : Led e
       · obtain ⟨h1, h2⟩ := hl.rows j idx u hu
         exact ⟨(hmem j).mpr (Or.inl h1), h2⟩
 
+theorem payFee_lookup_fee (t : Tx) (prop : String) (s : St) (idx : Nat) (h : feeSlot t idx = true) :
+    ∃ u, lookup (payFee t prop t.outs 0 s).U (t.id, idx) = some u ∧ u.amt = slotAmt t idx := by
+  rw [payFee_lookup_idx0]
+  unfold feeSlot at h
+  unfold slotAmt
+  cases ho : t.outs[idx]? with
+  | none => simp [ho] at h
+  | some o =>
+    simp only [ho] at h
+    simp only [h, ↓reduceIte]
+    exact ⟨_, rfl, rfl⟩
+
+theorem liveSlot_mono (e : Env) (C C' : List Nat) (i idx : Nat) (hsub : ∀ x ∈ C, x ∈ C')
+    (h : liveSlot e C i idx) : liveSlot e C' i idx := by
+  rcases h with h | ⟨h1, h2⟩
+  · exact Or.inl h
+  · exact Or.inr ⟨hsub i h1, h2⟩
+
+/-- **a pending transaction is confirmed** (its fee is paid to the proposer): it moves to the end of the confirmed log.
+It must not cite a transaction that is still pending (its pending parents were confirmed before it). -/
+theorem Led_confirmPending (e : Env) (s : St) (prop : String) (C P : List Nat) (i : Nat) (hl : Led e s.U C P)
+    (hi : i ∈ P) (hnp : ∀ r ∈ (e.tx i).ins, r.tx ∉ P) :
+    Led e (payFee (e.tx i) prop (e.tx i).outs 0 s).U (C ++ [i]) (P.filter (fun x => x != i)) := by
+  have hiA : i ∈ C ++ P := List.mem_append_right _ hi
+  have hid := hl.idEq i hiA
+  obtain ⟨hndC, hndP, hCP⟩ := List.nodup_append.mp hl.nodupA
+  obtain ⟨hoC, hoP, hoCP⟩ := List.pairwise_append.mp hl.order
+  have hiC : i ∉ C := fun h => hCP i h i hi rfl
+  have hmem : ∀ x, x ∈ (C ++ [i]) ++ P.filter (fun x => x != i) ↔ x ∈ C ++ P := by
+    intro x
+    simp only [List.mem_append, List.mem_cons, List.not_mem_nil, or_false, List.mem_filter, bne_iff_ne, ne_eq]
+    constructor
+    · rintro ((h | h) | ⟨h, _⟩)
+      · exact Or.inl h
+      · rw [h]; exact Or.inr hi
+      · exact Or.inr h
+    · rintro (h | h)
+      · exact Or.inl (Or.inl h)
+      · by_cases hx : x = i
+        · exact Or.inl (Or.inr hx)
+        · exact Or.inr ⟨h, hx⟩
+  have hsubC : ∀ x ∈ C, x ∈ C ++ [i] := fun x hx => List.mem_append_left _ hx
+  -- a slot that was live before is not a fee slot of `i`
+  have hold_notfee : ∀ idx, liveSlot e C i idx → feeSlot (e.tx i) idx = false := by
+    intro idx h
+    rcases h with h | ⟨h, _⟩
+    · exact feeSlot_matSlot _ _ h
+    · exact absurd h hiC
+  -- what the fee payment does to a row
+  have hlk_other : ∀ k : Ver, k.1 ≠ i → lookup (payFee (e.tx i) prop (e.tx i).outs 0 s).U k = lookup s.U k := by
+    intro k hk
+    exact payFee_lookup_otherid _ _ _ _ _ _ (by rw [hid]; exact hk)
+  have hlk_nonfee : ∀ idx, feeSlot (e.tx i) idx = false →
+      lookup (payFee (e.tx i) prop (e.tx i).outs 0 s).U (i, idx) = lookup s.U (i, idx) := by
+    intro idx hf
+    have := payFee_lookup_feeSlot (e.tx i) prop s idx hf
+    rw [hid] at this
+    exact this
+  refine ⟨?_, ?_, ?_, ?_, ?_, ?_, ?_, ?_, ?_, ?_⟩
+  · -- nodupA
+    apply List.nodup_append.mpr
+    refine ⟨?_, List.Nodup.sublist List.filter_sublist hndP, ?_⟩
+    · apply List.nodup_append.mpr
+      refine ⟨hndC, by simp, ?_⟩
+      intro a ha b hb
+      simp only [List.mem_cons, List.not_mem_nil, or_false] at hb
+      rw [hb]; intro e2; exact hiC (e2 ▸ ha)
+    · intro a ha b hb
+      have hbP := (List.mem_filter.mp hb).1
+      have hbi : b ≠ i := by simpa using (List.mem_filter.mp hb).2
+      rcases List.mem_append.mp ha with h | h
+      · exact hCP a h b hbP
+      · simp only [List.mem_cons, List.not_mem_nil, or_false] at h
+        rw [h]; exact fun e2 => hbi e2.symm
+  · intro j hj; exact hl.idEq j ((hmem j).mp hj)
+  · intro j hj; exact hl.insNodup j ((hmem j).mp hj)
+  · -- order
+    apply List.pairwise_append.mpr
+    refine ⟨?_, List.Pairwise.sublist List.filter_sublist hoP, ?_⟩
+    · apply List.pairwise_append.mpr
+      refine ⟨hoC, by simp, ?_⟩
+      intro a ha b hb
+      simp only [List.mem_cons, List.not_mem_nil, or_false] at hb
+      rw [hb]; exact hoCP a ha i hi
+    · intro a ha b hb
+      have hbP := (List.mem_filter.mp hb).1
+      rcases List.mem_append.mp ha with h | h
+      · exact hoCP a h b hbP
+      · simp only [List.mem_cons, List.not_mem_nil, or_false] at h
+        rw [h]
+        intro r hr e2
+        exact hnp r hr (e2 ▸ hbP)
+  · intro j hj; exact hl.noSelf j ((hmem j).mp hj)
+  · -- outs
+    intro x hx idx hlive
+    have hxA := (hmem x).mp hx
+    have hold : liveSlot e C x idx ∨ (x = i ∧ feeSlot (e.tx i) idx = true) := by
+      rcases hlive with h | ⟨h1, h2⟩
+      · exact Or.inl (Or.inl h)
+      · rcases List.mem_append.mp h1 with h | h
+        · exact Or.inl (Or.inr ⟨h, h2⟩)
+        · simp only [List.mem_cons, List.not_mem_nil, or_false] at h
+          exact Or.inr ⟨h, h ▸ h2⟩
+    rcases hold with hold | ⟨hxi, hf⟩
+    · rcases hl.outs x hxA idx hold with ⟨u, hu, ha⟩ | ⟨j, hj, r, hr, hrt, hro⟩
+      · left
+        refine ⟨u, ?_, ha⟩
+        by_cases hxi : x = i
+        · rw [hxi] at hold hu ⊢
+          rw [hlk_nonfee idx (hold_notfee idx hold)]; exact hu
+        · rw [hlk_other (x, idx) hxi]; exact hu
+      · right
+        exact ⟨j, (hmem j).mpr hj, r, hr, hrt, hro⟩
+    · left
+      rw [hxi]
+      have := payFee_lookup_fee (e.tx i) prop s idx hf
+      rw [hid] at this
+      exact this
+  · -- insSpent
+    intro j hj r hr
+    have hjA := (hmem j).mp hj
+    by_cases hri : r.tx = i
+    · obtain ⟨_, c2, _⟩ := hl.cites j hjA r hr
+      rw [hri] at c2
+      have hk : (r.tx, r.off) = (i, r.off) := by rw [hri]
+      rw [hk, hlk_nonfee r.off (hold_notfee r.off c2), ← hk]
+      exact hl.insSpent j hjA r hr
+    · rw [hlk_other (r.tx, r.off) hri]
+      exact hl.insSpent j hjA r hr
+  · intro a ha b hb hab
+    exact hl.disjoint a ((hmem a).mp ha) b ((hmem b).mp hb) hab
+  · -- cites
+    intro j hj r hr
+    obtain ⟨c1, c2, c3⟩ := hl.cites j ((hmem j).mp hj) r hr
+    exact ⟨(hmem r.tx).mpr c1, liveSlot_mono e C _ _ _ hsubC c2, c3⟩
+  · -- rows
+    intro x idx u hu
+    by_cases hxi : x = i
+    · rw [hxi] at hu ⊢
+      refine ⟨(hmem i).mpr hiA, ?_⟩
+      cases hf : feeSlot (e.tx i) idx
+      · rw [hlk_nonfee idx hf] at hu
+        exact liveSlot_mono e C _ _ _ hsubC (hl.rows i idx u hu).2
+      · exact Or.inr ⟨List.mem_append_right _ List.mem_cons_self, hf⟩
+    · rw [hlk_other (x, idx) hxi] at hu
+      obtain ⟨h1, h2⟩ := hl.rows x idx u hu
+      exact ⟨(hmem x).mpr h1, liveSlot_mono e C _ _ _ hsubC h2⟩
+
 end XV.Chain
